@@ -1154,6 +1154,137 @@ def install(P, max_split=4):
             v.items.append(x)
         return UNIT
 
+    @P.summary("<impl [T]>::split_at")
+    def _split_at(ctx, c):
+        v, k = deref(c.args[0]), deref(c.args[1])
+        if is_sym(k):
+            raise Unsupported("split_at with a symbolic index")
+        if k > len(v.items):
+            raise Panic("mid > len")
+        return Adt("tuple", None, [VecV(v.items[:k]), VecV(v.items[k:])])
+
+    @P.summary("<impl [T]>::split_first")
+    def _split_first(ctx, c):
+        v = deref(c.args[0])
+        return Some(Adt("tuple", None, [ItemRef(v, 0), VecV(v.items[1:])])) if v.items else NONE
+
+    @P.summary("<impl [T]>::split_last")
+    def _split_last(ctx, c):
+        v = deref(c.args[0])
+        return Some(Adt("tuple", None, [ItemRef(v, len(v.items) - 1), VecV(v.items[:-1])])) if v.items else NONE
+
+    @P.summary("<impl [T]>::get", "Vec::get")
+    def _sget(ctx, c):
+        v, k = deref(c.args[0]), deref(c.args[1])
+        if is_sym(k):
+            raise Unsupported("slice get with a symbolic index")
+        return Some(ItemRef(v, k)) if 0 <= k < len(v.items) else NONE
+
+    @P.summary("<impl [T]>::contains", "Vec::contains")
+    def _scontains(ctx, c):
+        v, x = deref(c.args[0]), deref(c.args[1])
+        for it in v.items:
+            if ctx.branch(val_eq(ctx, it, x), "contains"):
+                return True
+        return False
+
+    @P.summary("<impl [T]>::concat", "<impl [T]>::concat")
+    def _sconcat(ctx, c):
+        v = deref(c.args[0])
+        out = []
+        strs = []
+        for it in (v.items if isinstance(v, VecV) else v.fields):
+            it = deref(it)
+            if isinstance(it, VecV):
+                out.extend(it.items)
+            elif is_str(it):
+                strs.append(it)
+            else:
+                raise Unsupported(f"concat of {it!r}")
+        return concat(strs) if strs else VecV(out)
+
+    @P.summary("Vec::truncate")
+    def _vtrunc(ctx, c):
+        v, k = deref(c.args[0]), deref(c.args[1])
+        del v.items[k:]
+        return UNIT
+
+    @P.summary("Vec::insert")
+    def _vinsert(ctx, c):
+        v, k = deref(c.args[0]), deref(c.args[1])
+        v.items.insert(k, c.args[2])
+        return UNIT
+
+    @P.summary("Vec::remove")
+    def _vremove(ctx, c):
+        v, k = deref(c.args[0]), deref(c.args[1])
+        return v.items.pop(k)
+
+    @P.summary("Vec::drain", "Vec::into_iter")
+    def _vdrain(ctx, c):
+        v = deref(c.args[0])
+        items = list(v.items)
+        if c.key.endswith("drain"):
+            v.items = []
+        return ListIt(items)
+
+    @P.summary("Iterator::position")
+    def _position(ctx, c):
+        it = to_iter(ctx, c.args[0], False)
+        i = 0
+        while True:
+            v = it_next(ctx, it)
+            if v is END:
+                return NONE
+            if ctx.branch(callv(ctx, c.args[1], [v]), "position"):
+                return Some(i)
+            i += 1
+
+    @P.summary("Iterator::skip")
+    def _skip(ctx, c):
+        it = to_iter(ctx, c.args[0], False)
+        for _ in range(deref(c.args[1])):
+            if it_next(ctx, it) is END:
+                break
+        return it
+
+    @P.summary("Iterator::take")
+    def _take_n(ctx, c):
+        it = to_iter(ctx, c.args[0], False)
+        out = []
+        for _ in range(deref(c.args[1])):
+            v = it_next(ctx, it)
+            if v is END:
+                break
+            out.append(v)
+        return ListIt(out)
+
+    @P.summary("Iterator::zip")
+    def _zip(ctx, c):
+        a, b = drain(ctx, to_iter(ctx, c.args[0], False)), drain(ctx, to_iter(ctx, c.args[1], False))
+        return ListIt([Adt("tuple", None, [x, y]) for x, y in zip(a, b)])
+
+    @P.summary("Iterator::nth")
+    def _nth(ctx, c):
+        it = to_iter(ctx, c.args[0], False)
+        v = END
+        for _ in range(deref(c.args[1]) + 1):
+            v = it_next(ctx, it)
+            if v is END:
+                return NONE
+        return Some(v)
+
+    @P.summary("Iterator::max", "Iterator::min", "Iterator::sum")
+    def _minmax(ctx, c):
+        xs = [deref(x) for x in drain(ctx, to_iter(ctx, c.args[0], False))]
+        if any(is_sym(x) for x in xs):
+            raise Unsupported(c.key + " over symbolic values")
+        if c.key.endswith("sum"):
+            return sum(xs)
+        if not xs:
+            return NONE
+        return Some(max(xs) if c.key.endswith("max") else min(xs))
+
     @P.summary("Box::new_uninit")
     def _box_uninit(ctx, c):
         # vec![..] lowering: Box<MaybeUninit<[T;N]>> written through nested fields, then box_assume_init_into_vec_unsafe
